@@ -68,3 +68,22 @@ def range_bounds(e):
         a, b = sorted(("1", nf(e["args"][1])))
         return nf(e["args"][0]), "(%s + %s)" % (a, b)
     return None
+
+
+def pcanon(f, text, *names):
+    """`text` (rendered / nf) with the non-self parameter names of function f replaced, by POSITION, with the given canonical names —
+    rules speak about a parameter by its role (its position in the signature), not by what the source happens to call it"""
+    import re as _re
+    if text is None:
+        return None
+    ps = [p_.get("name") for p_ in (f.info.get("params") or []) if isinstance(p_, dict) and p_.get("name") != "self"]
+    mp = {old: new for old, new in zip(ps, names) if old and new and old != new}
+    if not mp:
+        return text
+    out = _re.sub(r"(?<![\w.])(%s)\b" % "|".join(_re.escape(x) for x in sorted(mp, key=len, reverse=True)), lambda m: "\x00" + mp[m.group(1)], text)
+    return out.replace("\x00", "")
+
+
+def pnames(f):
+    """names of f's parameters by position (self excluded)"""
+    return [p_.get("name") for p_ in (f.info.get("params") or []) if isinstance(p_, dict) and p_.get("name") != "self"]
